@@ -239,6 +239,25 @@ def popMany (eps : List EP) : List (Key × Nat) → List (List Name) → List Po
     let t := popMany eps r.2 rest
     (r.1 :: t.1, t.2)
 
+/-- a window of traffic on one cluster: requests' `Pop`s, and Syncs arriving in between (C14) -/
+inductive Event
+  | pick (us : List Name)
+  | sync (servers : List Server) (policies : List (List Name))
+deriving Repr
+
+def runEvents : State → List Event → State × List PopOut
+  | s, [] => (s, [])
+  | s, .pick us :: rest =>
+    let r := pop s.eps s.lb us
+    let t := runEvents { s with lb := r.2 } rest
+    (t.1, r.1 :: t.2)
+  | s, .sync servers policies :: rest => runEvents (sync s servers policies) rest
+
+def picksOf : List Event → List (List Name)
+  | [] => []
+  | .pick us :: rest => us :: picksOf rest
+  | .sync _ _ :: rest => picksOf rest
+
 /-! ## concurrent pickers (C14): one atomic action per step
 
 `Pop` touches shared mutable state once: `atomic.AddUint64` on the cursor of its ordered ready list (`LoadOrStore` of a
